@@ -11,7 +11,7 @@ from vf.props.c18 import harvest_words, IT_POS
 M32 = 0xFFFFFFFF
 USR = 0b10000
 # user-visible state (DESIGN.md appendix A.8); everything else in the snapshot is privileged
-USER_KEYS = {'R.R%dusr' % i for i in range(13)} | {'R.SPusr', 'R.LRusr', 'R.PC', 'event_register', 'wfe', 'wfi', 'cplog', 'barriers', 'preloads', 'excl', 'tpidrurw'}          # (TPIDRURW: the User read/write thread ID register)
+USER_KEYS = {'R.R%dusr' % i for i in range(13)} | {'R.SPusr', 'R.LRusr', 'R.PC', 'event_register', 'wfe', 'wfi', 'cplog', 'barriers', 'preloads', 'svcalls', 'excl', 'tpidrurw'}          # (TPIDRURW: the User read/write thread ID register)
 CPSR_USER_BITS = 0xF80F0000 | 0x0600FC00 | (1 << 9) | (1 << 5) | (1 << 24)   # NZCVQ, GE, IT, E, T, (J cannot be set by valid code paths here)
 FAULT_REGS = ('dfsr', 'dfar', 'hsr', 'hdfar', 'hpfar')
 # exceptions an instruction executed in User mode can architecturally cause: Undefined Instruction, Supervisor Call, Data Abort, and (Non-secure,
